@@ -28,7 +28,7 @@ EVIDENCE = os.path.join(VERIF, "evidence")
 REPLAYS = os.environ.get("VERIF_REPLAYS_DIR") or os.path.join(VERIF, "replays")
 KNOWN_FINDINGS = os.path.join(VERIF, "known_findings.json")
 
-JOB_TIMEOUT = 30.0
+JOB_TIMEOUT = 20.0
 
 
 class HarnessError(Exception):
@@ -108,12 +108,12 @@ class Worker:
 
     def run(self, job, timeout=JOB_TIMEOUT):
         """Execute one job. A worker that dies or hangs is reported as a crash of that job. A job that exceeds the
-        wall-clock backstop is executed once more in a fresh worker with ten times the backstop before it counts as a
+        wall-clock backstop is executed once more in a fresh worker with six times the backstop before it counts as a
         hang, so that a loaded machine cannot change a verdict (the backstop is 10^4 times the normal cost of a job)."""
         result = self.run_once(job, timeout)
         if result.get("crash") == "timeout" and not getattr(self, "hang_confirmed", False):
             self.timeouts_retried = getattr(self, "timeouts_retried", 0) + 1
-            result = self.run_once(job, timeout * 10)
+            result = self.run_once(job, timeout * 6)
             if result.get("crash") == "timeout":
                 # a real hang on this tree: later timeouts of this worker are not given the long backstop again
                 self.hang_confirmed = True
@@ -297,9 +297,9 @@ def _shard_main(check_factory, binaries, seed, tier, indices, conn):
                 break
             out["runs"] += 1
             out["jobs"] += outcome.get("jobs", 0)
-            if len(out["violations"]) >= 12:
+            if len(out["violations"]) >= 6:
                 # the tree is broken for this property; the verdict is settled, do not burn hours on a flood
-                out["counters"]["shards_stopped_early_after_12_violations"] = 1
+                out["counters"]["shards_stopped_early_after_6_violations"] = 1
                 break
             for violation in outcome.get("violations", []):
                 violation["run_index"] = index
